@@ -10,7 +10,7 @@ package docker
 //@ func (*Scanner).Scan
 //@   sig s, ctx, r
 //@   locals cancel: context.CancelFunc ;; host: string ;; docker: *github.com/moby/moby/client.Client ;; info: github.com/docker/docker/api/types.Info ;; version: github.com/docker/docker/api/types.Version
-//@   props C10 C08 C01 C02 C14
+//@   props C10 C08 C01 C02 C14 C12
 //@   observe context.WithTimeout, String, fmt.Sprintf, WithHTTPClient, WithScheme, WithHost, NewClientWithOpts, Info, ServerVersion, cancel
 //@   entry row noclient: [call context.WithTimeout(ctx, s.dataTimeout) as (c2, cf) ; call String(r.DstIP) as (ips) ; call fmt.Sprintf("tcp://%s:%d", bind_a) as (host) ;
 //@                        call WithHTTPClient(s.client) as (o1) ; call WithScheme(s.proto) as (o2) ; call WithHost(host) as (o3) ; call NewClientWithOpts(bind_os) as (cl, e) ; call cancel()]
@@ -30,13 +30,13 @@ package docker
 // C02 / C10: private transport without proxy (see pkg/scan/elastic); defaults first, then the options in order
 //@ func WithDataTimeout$1
 //@   sig s
-//@   props C10 C08 C01 C02 C14
+//@   props C10 C08 C01 C02 C14 C12
 //@   modifies s.dataTimeout
 //@   ensures s.dataTimeout == timeout
 //@ func NewScanner
 //@   sig proto, opts
 //@   locals tr: *net/http.Transport ;; s: *Scanner ;; o: ScannerOption
-//@   props C02 C10 C08 C01 C14
+//@   props C02 C10 C08 C01 C14 C12
 //@   observe ScannerOption
 //@   entry row init:  [] when s.proto == proto && s.client.Timeout == 0 && isptr(s.client.Transport, http.Transport) && fresh(asptr(s.client.Transport, http.Transport))
 //@                       && asptr(s.client.Transport, http.Transport).Proxy == nil && asptr(s.client.Transport, http.Transport).DialContext == nil && asptr(s.client.Transport, http.Transport).DisableKeepAlives -> loop 0
@@ -60,5 +60,5 @@ package docker
 //@ func WithDataTimeout
 //@   sig timeout
 //@   inline
-//@   props C10 C08 C01 C02 C14
+//@   props C10 C08 C01 C02 C14 C12
 //@   ensures closureof(ret, "WithDataTimeout$1") && capt(ret, "timeout") == timeout
